@@ -1,9 +1,37 @@
+(** C07 — concurrent requests cause one refresh; no refresh token is presented twice. *)
 From Coq Require Import ZArith NArith Bool List.
-From WW Require Import Gen.Params Base.AMap Model.SessionTime Model.Machine Model.Entry Proofs.MachineRefute.
+From WW Require Import Gen.Params Base.AMap Model.SessionTime Model.Machine Model.Entry
+     Proofs.MachineP Proofs.MachineRefute.
 Import ListNotations.
 Open Scope Z_scope.
+
+(** Mutual exclusion, for the Redis lock and for the in-memory store's lock alike: in every reachable state
+    (any schedule, any number of threads, faults, crashes) at most one thread is a valid holder of a session's
+    refresh lock, i.e. is past the acquisition (re-read, grant, update, release) with the live lock entry
+    carrying its token. A second thread can only be in those phases if its own lease has run out. *)
+Theorem c07_mutual_exclusion : forall c es tau t1 t2 th1 th2,
+  locking c ->
+  let s := run_events c (init_state tau) es in
+  alookup t1 (m_ts s) = Some th1 -> alookup t2 (m_ts s) = Some th2 ->
+  cookie_key (t_cookie th1) = cookie_key (t_cookie th2) ->
+  valid_holder (m_w s) th1 -> valid_holder (m_w s) th2 -> t1 = t2.
+Proof. exact mutual_exclusion. Qed.
+Print Assumptions c07_mutual_exclusion.
+
+(** Without a real lock on the in-memory store (pre-fix code, flag off) both requests present refresh token 1. *)
 Theorem c07_memory_store_refuted :
   let s := run_events (cfg_mem false false false) (init_state 3600) double_refresh_schedule in
   w_idp_log (m_w s) = [IdpGrant 1 false; IdpGrant 1 true].
 Proof. exact memory_store_double_presentation. Qed.
 Print Assumptions c07_memory_store_refuted.
+
+(** With the lock (current code) two requests that both decided to refresh make one presentation only:
+    the second acquires the lock after the first released it, re-reads, finds the cooldown running and stops. *)
+Example c07_memory_store_fixed :
+  let s := run_events (cfg_mem true true true) (init_state 3600)
+    [ELogin 1 2; ETick (3601 * second); ESpawn 1 KProxy tk; ESpawn 2 KProxy tk;
+     ERun 1 FNone; ERun 2 FNone; ERun 1 FNone; ERun 2 FNone; ERun 1 FNone; ERun 1 FNone; ERun 2 FNone;
+     ERun 1 FNone; ERun 1 FNone; ERun 2 FNone; ERun 2 FNone; ERun 2 FNone] in
+  w_idp_log (m_w s) = [IdpGrant 1 true] /\
+  thread_done s 1 (OForward (Some 2%N) None) /\ thread_done s 2 (OForward (Some 2%N) None).
+Proof. vm_compute. split; [reflexivity|split; eexists; split; reflexivity]. Qed.
